@@ -69,9 +69,11 @@ def draw_system(rng, seed: int, prop: str, *, families=("single",) * 6 + ("cross
         descs["D2"] = d2
         descs["N0"] = space.new_for(rng, d0, "disjoint")
         descs["N1"] = space.new_for(rng, d0, rng.choice(["overlap", "one", "same"]))
-        if d0["container"] == "da" and rng.random() < 0.4:
+        if d0["container"] == "da" and rng.random() < 0.5:
             # unseen data may come with its dimensions in another order
-            descs["N1"]["order"] = {"sf": "fs", "fs": "sf", "mixed": "sf"}[d0.get("order", "sf")]
+            descs["N1"]["order"] = rng.choice(["rev", "rev", {"sf": "fs", "fs": "sf", "mixed": "sf"}[d0.get("order", "sf")]])
+            if len(d0["sample"]) + len(d0["fields"][0]) >= 3 and rng.random() < 0.6:
+                descs["N0"]["order"] = "rev"
         descs["N2"] = space.new_for(rng, d2, "disjoint")
         if rng.random() < 0.3:
             descs["W0"] = {"kind": "weights", "of": "D0", "seed": rng.randrange(10 ** 6),
